@@ -207,7 +207,15 @@ func c14(p *Prog, r *Report) {
 			r.Check(same, R4, "scMinusOne == GOROOT scalarMinusOneBytes", "ed25519/internal/edwards25519/scalar.go", "equal by value", "differs from the reference constant")
 		}
 		if f := pk[0].funcs["isReduced"]; f != nil {
-			why := isReducedShape(f)
+			// decided by orderings on SSA; the reviewed syntactic shape is accepted too
+			why := isReducedOrderings(p, p.Func("~/ed25519/internal/edwards25519.isReduced"))
+			if why != "" {
+				if shape := isReducedShape(f); shape == "" {
+					why = ""
+				} else {
+					why += " (syntax: " + shape + ")"
+				}
+			}
 			r.Check(why == "", R4, "isReduced compares bytes 31..0, most significant first, against scMinusOne", "ed25519/internal/edwards25519/scalar.go", "for i := len-1; i >= 0; i-- { > : false; < : true }; true", why)
 		} else {
 			r.Fail(R4, "isReduced", "-", "unresolved anchor: isReduced not found")
